@@ -15,7 +15,11 @@ inductive CStep where
   | blobSized (sizeIdx : Nat)   -- octets whose number is the value of an earlier field
   | txt                         -- character-strings up to the end of the RDATA
   | nsec                        -- type bitmap up to the end of the RDATA (packDataNsec / unpackDataNsec)
-  | other                       -- a primitive outside the algebra (SVCB, OPT, APL, gateway, name lists)
+  | gateway (typeIdx : Nat) (mask7 : Bool)  -- packIPSECGateway: nothing / A / AAAA / name, chosen by an earlier field (AMTRELAY: its low 7 bits)
+  | names                       -- domain names up to the end of the RDATA (packDataDomainNames)
+  | tlvs (sorted : Bool)        -- (code, length, data) triples up to the end of the RDATA: packDataOpt (false) / packDataSVCB (true: keys strictly increasing)
+  | apl                         -- address prefix items up to the end of the RDATA (packDataApl)
+  | other                       -- a primitive outside the algebra
 deriving Repr, DecidableEq
 
 end Dns
